@@ -657,6 +657,7 @@ func init() {
 				okShape := true
 				why := ""
 				// through a private helper that returns (word, bit) for a TSN: cell(tsn) → (tsn/64)%len, tsn%64
+				var cellCalls []*ssa.Call
 				var viaHelperT func(v ssa.Value, want string, d int) (ssa.Value, bool)
 				viaHelperT = func(v ssa.Value, want string, d int) (ssa.Value, bool) {
 					v = unconv(v)
@@ -684,6 +685,7 @@ func init() {
 					if len(rs) != 1 {
 						return nil, false
 					}
+					cellCalls = append(cellCalls, call)
 					t, ok := viaHelperT(rs[0], want, d+1)
 					if !ok {
 						return nil, false
@@ -714,8 +716,14 @@ func init() {
 							}
 							idxT = append(idxT, t)
 						case *ssa.BinOp:
-							if x.Op != token.SHL || !IsConstInt(1)(unconv(x.X)) {
+							// mask form `1 << bit`, or test form `(word >> bit) & 1`
+							if !(x.Op == token.SHL && IsConstInt(1)(unconv(x.X))) && x.Op != token.SHR {
 								return
+							}
+							if x.Op == token.SHR {
+								if _, isK := unconv(x.Y).(*ssa.Const); isK {
+									return
+								}
 							}
 							t, ok := viaHelperT(x.Y, "bit", 0)
 							if !ok {
@@ -725,6 +733,33 @@ func init() {
 							bitT = append(bitT, t)
 						}
 					})
+				}
+				if len(bitT) == 0 {
+					// the helper returns (word, mask): the shift sits inside it
+					for _, call := range cellCalls {
+						h := call.Call.StaticCallee()
+						if h == nil {
+							continue
+						}
+						forEachInstr(h, func(in ssa.Instruction) {
+							b, ok := in.(*ssa.BinOp)
+							if !ok || b.Op != token.SHL || !IsConstInt(1)(unconv(b.X)) {
+								return
+							}
+							rem, isRem := unconv(b.Y).(*ssa.BinOp)
+							if !isRem || rem.Op != token.REM || !IsConstInt(64)(rem.Y) {
+								okShape, why = false, "bit position is not T mod 64 (an offset was added or the expression changed)"
+								return
+							}
+							if p, isP := unconv(rem.X).(*ssa.Parameter); isP && p.Parent() == h {
+								for i, q := range h.Params {
+									if q == p && i < len(call.Call.Args) {
+										bitT = append(bitT, unconv(call.Call.Args[i]))
+									}
+								}
+							}
+						})
+					}
 				}
 				if len(idxT) == 0 && len(bitT) == 0 {
 					continue // delegates to a helper examined under its own name
